@@ -801,39 +801,16 @@ def copyChunk : Nat → S → Nat → Nat → Nat → S × Nat × CopyEnd
 
 def setLimit (s : S) (n : Nat) : S := setW s { s.w with limit := n }
 
-/-- what `Conn.resumeLineLimit` counts of the buffered octets: the command lines — behind a BDAT command line that announces a size
-    comes the payload of that chunk, which is skipped (and if it is not buffered completely, nothing behind the line is counted);
-    behind a DATA, AUTH or STARTTLS line nothing is skipped any more (what follows may not be commands) -/
-def cutAtBdat : Nat → Bytes → Bytes
-  | 0, rest => rest
-  | fuel + 1, rest =>
-    match Wire.lfEnd rest with
-    | none => rest
-    | some i =>
-      let line := rest.take i
-      let after := rest.drop i
-      match parseCmd line with
-      | some (cmd, arg) =>
-        if cmd == "BDAT".b then
-          match fields arg with
-          | a0 :: _ =>
-            match parseUintDec a0 32 with
-            | some size => if after.length ≤ size then line else line ++ cutAtBdat fuel (after.drop size)
-            | none => line ++ cutAtBdat fuel after
-          | [] => line ++ cutAtBdat fuel after
-        else if cmd == "DATA".b || cmd == "AUTH".b || cmd == "STARTTLS".b then rest
-        else line ++ cutAtBdat fuel after
-      | none => line ++ cutAtBdat fuel after
-
-/-- `Conn.resumeLineLimit`: the limit comes back after a chunk; the buffered command lines behind the chunk are counted -/
-def armLimit (s : S) : S := setW s (Wire.resume s.w s.cfg.maxLine (cutAtBdat s.w.buf.length s.w.buf))
+/-- `Conn.resumeLineLimit`: the limit comes back after a chunk and starts afresh; what is buffered behind the chunk was read while the
+    limit was lifted, and `readLine` checks the length of every line it hands out -/
+def armLimit (s : S) : S := setW s (Wire.resume s.w s.cfg.maxLine [])
 
 /-- skip the payload of a refused BDAT command (`discardChunk`), the line limit lifted meanwhile -/
 def discardChunkN (s : S) (size? : Option Nat) : S :=
   match size? with
   | some n =>
     let w := discardN (wireFuel s.w) { s.w with limit := 0 } n
-    setW s (Wire.resume w s.cfg.maxLine (cutAtBdat w.buf.length w.buf))
+    setW s (Wire.resume w s.cfg.maxLine [])
   | none => s
 
 def setBdatStatus (s : S) : S :=
